@@ -21,7 +21,7 @@ import (
 // ---- case description (also the replay document) ------------------------------
 
 type epAction struct {
-	Kind     string `json:"k"` // ok | 500 | crash | hang
+	Kind     string `json:"k"` // ok | 500 | reset | crash | hang
 	DelayMs  int    `json:"delay_ms,omitempty"`
 	RefuseMs int    `json:"refuse_ms,omitempty"` // crash: how long the listener stays closed afterwards
 }
@@ -59,7 +59,7 @@ type whCase struct {
 
 func actionCostMs(a epAction) int {
 	switch a.Kind {
-	case "500":
+	case "500", "reset":
 		return 500 + a.DelayMs
 	case "crash":
 		return a.RefuseMs + 1000 + a.DelayMs
@@ -70,7 +70,7 @@ func actionCostMs(a epAction) int {
 }
 
 func drawFailure(rt *rapid.T, hang bool, budget *int) (epAction, bool) {
-	kinds := []string{"500", "500", "crash", "crash"}
+	kinds := []string{"500", "500", "crash", "crash", "reset"}
 	if hang {
 		kinds = append(kinds, "hang")
 	}
@@ -181,7 +181,8 @@ type endpoint struct {
 	okT       []int64
 	slowest   time.Duration // longest time between a request's arrival and its 200 being flushed
 	listenErr string
-	closed    bool // closed for good
+	closed    bool   // closed for good
+	force     string // when set, every request gets this action and the script is not consumed
 }
 
 var epIP = fmt.Sprintf("127.77.%d.%d", (os.Getpid()>>8)&255, os.Getpid()&255)
@@ -280,15 +281,20 @@ func (e *endpoint) ServeHTTP(w http.ResponseWriter, r *http.Request) {
 	t := now()
 	e.mu.Lock()
 	act := epAction{Kind: "ok"}
-	if e.next < len(e.script) {
-		act = e.script[e.next]
+	if e.force != "" {
+		act = epAction{Kind: e.force}
+	} else {
+		if e.next < len(e.script) {
+			act = e.script[e.next]
+		}
+		e.next++
 	}
-	e.next++
 	cb := canonBody(body)
 	if r.Method != "POST" || r.URL.Path != e.path {
 		cb = "!wrong-request:" + r.Method + " " + r.URL.Path + " " + cb
 	}
 	e.arrivals = append(e.arrivals, arrival{T: t, Body: cb, Action: act.Kind, Backlog: int(e.twin.Load()) - len(e.ok)})
+	e.cond.Broadcast()
 	e.mu.Unlock()
 	if act.DelayMs > 0 {
 		time.Sleep(time.Duration(act.DelayMs) * time.Millisecond)
@@ -310,6 +316,18 @@ func (e *endpoint) ServeHTTP(w http.ResponseWriter, r *http.Request) {
 		e.mu.Unlock()
 	case "500":
 		w.WriteHeader(http.StatusInternalServerError)
+	case "reset":
+		// the connection is torn down (RST) instead of an answer
+		if hj, ok := w.(http.Hijacker); ok {
+			if c, _, err := hj.Hijack(); err == nil {
+				if tc, ok := c.(*net.TCPConn); ok {
+					tc.SetLinger(0)
+				}
+				c.Close()
+				return
+			}
+		}
+		panic(http.ErrAbortHandler)
 	case "crash":
 		// the endpoint dies while handling this request: no response, the
 		// connection and the listener are closed, and it comes back later
@@ -337,13 +355,32 @@ type twinReader struct {
 	err   string
 	hang  bool
 	done  chan struct{}
+	// restart support: a "SYNC" payload is reported on sync; when
+	// expectClose is set a read error ends the reader silently (the server is
+	// being stopped on purpose) and stopped is closed instead of done
+	sync        chan struct{}
+	expectClose atomic.Bool
+	stopped     chan struct{}
 }
 
 func (tw *twinReader) run() {
-	defer close(tw.done)
+	conn := tw.conn
+	stopped := tw.stopped
+	finished := false
+	defer func() {
+		if finished || stopped == nil {
+			close(tw.done)
+		} else {
+			close(stopped)
+		}
+	}()
 	for {
-		v, err := tw.conn.RecvTimeout(2 * t38.ReplyTimeout)
+		v, err := conn.RecvTimeout(2 * t38.ReplyTimeout)
 		if err != nil {
+			if tw.expectClose.Load() && stopped != nil {
+				return
+			}
+			finished = true
 			tw.mu.Lock()
 			tw.err, tw.hang = err.Error(), err == t38.ErrHang
 			tw.mu.Unlock()
@@ -353,10 +390,16 @@ func (tw *twinReader) run() {
 			tw.mu.Lock()
 			tw.err = "unexpected value on the twin subscription: " + v.String()
 			tw.mu.Unlock()
+			finished = true
 			return
 		}
 		if v.Arr[2].Str == "END" {
+			finished = true
 			return
+		}
+		if v.Arr[2].Str == "SYNC" && tw.sync != nil {
+			tw.sync <- struct{}{}
+			continue
 		}
 		tw.mu.Lock()
 		tw.msgs = append(tw.msgs, canonBody([]byte(v.Arr[2].Str)))
